@@ -14,6 +14,7 @@ LEVEL = "proof"
 def regenerate(res):
     import attrlib
     attrlib.regenerate_pyfront(res)
+    attrlib.regenerate_wblocks(res)
 
 
 def tree_hash(d):
